@@ -22,11 +22,9 @@ import c04_gen
 PID = "C04"
 PROP_MODULES = ["UsualProofs.Props.C04", "UsualProofs.Bridge.C04"]
 SRCS = ["repo:usual/regex.c", "repo:usual/mempool.c"]
-# two formally-undefined but harmless constructs of regex.c are not treated as crashes (see report):
-#   memset(NULL, -1, 0) in regexec(nmatch=0, pmatch=NULL)   -> nonnull-attribute
-#   1 << 31 on an int in class_set/class_isset              -> shift-base
-CFLAGS = ["-DUSE_INTERNAL_REGEX", "-fno-sanitize=nonnull-attribute", "-fno-sanitize=shift-base",
-          "-Wl,--wrap=calloc,--wrap=free"]
+# full ASan+UBSan (vf.SAN_FLAGS): the unchanged regex.c trips UBSan on memset(NULL, -1, 0) in
+# regexec(nmatch=0, pmatch=NULL) and on `1 << 31` in class_set/class_isset -> fix F35
+CFLAGS = ["-DUSE_INTERNAL_REGEX", "-Wl,--wrap=calloc,--wrap=free"]
 ALARM_MS = 5000
 NPROC = 16
 
@@ -574,11 +572,14 @@ def run_att(ck, rn, hcmd, dcmd):
     tests, skipped = load_att(vf.REPO)
     lines = ["p %d %s %d %d %s" % (cf, vf.hexs(pat), nm, ef, vf.hexs(subj)) for (_, cf, nm, ef, pat, subj, _, _) in tests]
     c_all, m_all = rn.both_parallel(lines)
-    ok = bad = model_cmp = 0
+    ok = bad = model_cmp = model_bad = 0
     klines, kidx = [], []
     verdicts = [att_verdict(t[6], c) for t, c in zip(tests, c_all)]
     for i, ((where, cf, nm, ef, pat, subj, exp, blk), c, m) in enumerate(zip(tests, c_all, m_all)):
         ck.count(1)
+        if c == "<not-run>":
+            skipped["not-run-after-repeated-crashes"] = skipped.get("not-run-after-repeated-crashes", 0) + 1
+            continue
         if blk is not None and not verdicts[blk]:
             skipped["in-block-whose-head-test-fails(unsupported feature)"] = \
                 skipped.get("in-block-whose-head-test-fails(unsupported feature)", 0) + 1
@@ -601,7 +602,8 @@ def run_att(ck, rn, hcmd, dcmd):
             mm = re.match(r"^(ok nsub=\d+ )(\(\-?\d+,\-?\d+\))", c)
             if mm:
                 cm = mm.group(1) + mm.group(2)
-            if cm.split(" ## ")[0] != m.split(" ## ")[0]:
+            if cm.split(" ## ")[0] != m.split(" ## ")[0] and bad <= 3 and model_bad < 3:
+                model_bad += 1
                 ck.report("obs", {"label": "att-table:model", "ops": [lines[i]], "where": where, "impl": [c], "model": [m]})
         mm = re.match(r"^ok nsub=(\d+) ((\((\?|\d+),(\?|\d+)\))+)", c)
         if mm:
@@ -777,8 +779,6 @@ def run(ck):
         "iterations at 32767, the model's unbounded repetition is unbounded)",
         "back-references and REG_RELAXED escapes are outside the property's syntax (model answers `unsup`, only "
         "crash/leak freedom is checked there)",
-        "regexec(…, nmatch=0, pmatch=NULL) executes memset(NULL, -1, 0): UBSan's nonnull-attribute check is "
-        "disabled in the harness build because this is formally undefined but harmless",
         "executions stopped by the per-exec %d ms alarm are excluded (no complexity clause)" % ALARM_MS,
     ]
     ck.cov["rule"] = (
@@ -971,6 +971,11 @@ def replay(ck, path):
         if op.startswith("p ") and "expected" in r:
             bad = not att_verdict(r["expected"], c)
             vf.log("  AT&T reference answer: %s -> %s" % (r["expected"], "DIFFERENT" if bad else "equal"))
+        elif op.startswith("p "):
+            import re as _re
+            mm = _re.match(r"^(ok nsub=\d+ )(\(\-?\d+,\-?\d+\))", c)
+            cm = (mm.group(1) + mm.group(2)) if mm else c
+            bad = m != "unsup" and cm.split(" ## ")[0] != m.split(" ## ")[0]
         else:
             bad = rn.differs(c, m) is not None
         if bad:
